@@ -35,6 +35,57 @@ type tr struct {
 	gen    bool // function is generic in T
 	copies int
 	fn     string
+	result string          // "res" = (T, error); "bool"; or an integer type
+	calls  map[string]bool // translated functions this one calls
+}
+
+// sig is the signature of a top-level function of the file (calls between translated functions).
+type sig struct {
+	generic bool
+	params  []ty
+	result  string
+}
+
+var sigs = map[string]sig{}
+
+// Go's math constants that bound the integer types
+var mathConsts = map[string]string{
+	"MaxInt8": "127", "MinInt8": "-128", "MaxUint8": "255", "MaxInt16": "32767", "MinInt16": "-32768", "MaxUint16": "65535",
+	"MaxInt32": "2147483647", "MinInt32": "-2147483648", "MaxUint32": "4294967295",
+	"MaxInt64": "9223372036854775807", "MinInt64": "-9223372036854775808", "MaxUint64": "18446744073709551615",
+}
+
+// callText renders a call of a translated function (arguments are translated; the callee's T is the caller's T).
+func (t *tr) callText(e *ast.CallExpr) (string, sig, bool) {
+	id, ok := e.Fun.(*ast.Ident)
+	if !ok {
+		return "", sig{}, false
+	}
+	sg, ok := sigs[id.Name]
+	if !ok || len(e.Args) != len(sg.params) {
+		return "", sig{}, false
+	}
+	parts := []string{id.Name}
+	if sg.generic {
+		if !t.gen {
+			t.fail(e, "call of a generic function from a non-generic one (type argument unknown)")
+		}
+		parts = append(parts, "T")
+	}
+	for i, a := range e.Args {
+		x, k := t.expr(a)
+		want := sg.params[i]
+		if k != "lit" && k != want {
+			t.fail(a, fmt.Sprintf("argument type %s, parameter type %s", k, want))
+		}
+		parts = append(parts, x)
+	}
+	if t.calls == nil {
+		t.calls = map[string]bool{}
+	}
+	t.calls[id.Name] = true
+
+	return "(" + strings.Join(parts, " ") + ")", sg, true
 }
 
 // error-identity facts (rendered into the generated module, evaluated by Hive/Model/SafeMathErr.lean)
@@ -257,6 +308,10 @@ func (t *tr) expr(e ast.Expr) (string, ty) {
 			return fmt.Sprintf("(%s.neg %s)", leanTy(k), s), k
 		case token.NOT:
 			return "(!" + s + ")", "bool"
+		case token.XOR:
+			if k != "lit" && isIntTy(k) {
+				return fmt.Sprintf("(%s.not %s)", leanTy(k), s), k
+			}
 		}
 	case *ast.BinaryExpr:
 		a, ka := t.expr(e.X)
@@ -270,6 +325,13 @@ func (t *tr) expr(e ast.Expr) (string, ty) {
 			op := "shl"
 			if e.Op == token.SHR {
 				op = "shr"
+			}
+			if ka == "lit" { // constant expression: exact integer arithmetic
+				if e.Op == token.SHR {
+					return fmt.Sprintf("(%s / 2 ^ (%s).toNat)", a, b), "lit"
+				}
+
+				return fmt.Sprintf("(%s * 2 ^ (%s).toNat)", a, b), "lit"
 			}
 
 			return fmt.Sprintf("(%s.%s %s %s)", leanTy(ka), op, a, b), ka
@@ -286,6 +348,18 @@ func (t *tr) expr(e ast.Expr) (string, ty) {
 				return fmt.Sprintf("(%s != %s)", a, b), "bool"
 			}
 		}
+		if k == "lit" { // constant expression: exact integer arithmetic
+			switch e.Op {
+			case token.ADD:
+				return fmt.Sprintf("(%s + %s)", a, b), "lit"
+			case token.SUB:
+				return fmt.Sprintf("(%s - %s)", a, b), "lit"
+			case token.MUL:
+				return fmt.Sprintf("(%s * %s)", a, b), "lit"
+			case token.QUO:
+				return fmt.Sprintf("(Int.tdiv %s %s)", a, b), "lit"
+			}
+		}
 		switch e.Op {
 		case token.ADD:
 			return fmt.Sprintf("(%s.add %s %s)", leanTy(k), a, b), k
@@ -297,6 +371,14 @@ func (t *tr) expr(e ast.Expr) (string, ty) {
 			return fmt.Sprintf("(%s.div %s %s)", leanTy(k), a, b), k
 		case token.AND:
 			return fmt.Sprintf("(%s.and %s %s)", leanTy(k), a, b), k
+		case token.OR:
+			return fmt.Sprintf("(%s.or %s %s)", leanTy(k), a, b), k
+		case token.XOR:
+			return fmt.Sprintf("(%s.xor %s %s)", leanTy(k), a, b), k
+		case token.AND_NOT:
+			return fmt.Sprintf("(%s.andNot %s %s)", leanTy(k), a, b), k
+		case token.REM:
+			return fmt.Sprintf("(%s.rem %s %s)", leanTy(k), a, b), k
 		case token.EQL:
 			return fmt.Sprintf("(decide (%s = %s))", a, b), "bool"
 		case token.NEQ:
@@ -310,7 +392,21 @@ func (t *tr) expr(e ast.Expr) (string, ty) {
 		case token.GEQ:
 			return fmt.Sprintf("(decide (%s ≥ %s))", a, b), "bool"
 		}
+	case *ast.SelectorExpr:
+		if pk, ok := e.X.(*ast.Ident); ok && pk.Name == "math" {
+			if v, ok := mathConsts[e.Sel.Name]; ok {
+				return "(" + v + " : Int)", "lit"
+			}
+		}
 	case *ast.CallExpr:
+		// calls of other translated functions with a single result
+		if txt, sg, ok := t.callText(e); ok {
+			if sg.result == "res" {
+				t.fail(e, "call of a (T, error) function inside an expression")
+			}
+
+			return txt, ty(sg.result)
+		}
 		// conversions
 		if id, ok := e.Fun.(*ast.Ident); ok && len(e.Args) == 1 {
 			to := ty(id.Name)
@@ -376,7 +472,12 @@ func mayReturn(s ast.Stmt) bool {
 // assigned collects outer variables assigned with `=` inside s.
 func assigned(s ast.Stmt, acc map[string]bool) {
 	ast.Inspect(s, func(n ast.Node) bool {
-		if a, ok := n.(*ast.AssignStmt); ok && a.Tok == token.ASSIGN {
+		if ids, ok := n.(*ast.IncDecStmt); ok {
+			if id, ok := ids.X.(*ast.Ident); ok {
+				acc[id.Name] = true
+			}
+		}
+		if a, ok := n.(*ast.AssignStmt); ok && a.Tok != token.DEFINE {
 			for _, l := range a.Lhs {
 				if id, ok := l.(*ast.Ident); ok {
 					acc[id.Name] = true
@@ -418,7 +519,43 @@ func (t *tr) block(stmts []ast.Stmt, depth int, k func(depth int) string) string
 		t.env[vs.Names[0].Name] = k
 
 		return fmt.Sprintf("%slet %s : Int := %s\n", ind(depth), leanName(vs.Names[0].Name), e) + cont(depth)
+	case *ast.IncDecStmt:
+		op := token.ADD
+		if s.Tok == token.DEC {
+			op = token.SUB
+		}
+		as := &ast.AssignStmt{Lhs: []ast.Expr{s.X}, TokPos: s.TokPos, Tok: token.ASSIGN,
+			Rhs: []ast.Expr{&ast.BinaryExpr{X: s.X, OpPos: s.TokPos, Op: op, Y: &ast.BasicLit{ValuePos: s.TokPos, Kind: token.INT, Value: "1"}}}}
+
+		return t.block(append([]ast.Stmt{as}, rest...), depth, k)
 	case *ast.AssignStmt:
+		if op, ok := compoundOps[s.Tok]; ok && len(s.Lhs) == 1 && len(s.Rhs) == 1 {
+			as := &ast.AssignStmt{Lhs: s.Lhs, TokPos: s.TokPos, Tok: token.ASSIGN,
+				Rhs: []ast.Expr{&ast.BinaryExpr{X: s.Lhs[0], OpPos: s.TokPos, Op: op, Y: &ast.ParenExpr{X: s.Rhs[0]}}}}
+
+			return t.block(append([]ast.Stmt{as}, rest...), depth, k)
+		}
+		if call, ok := s.Rhs[0].(*ast.CallExpr); ok && len(s.Rhs) == 1 && len(s.Lhs) == 2 && s.Tok == token.DEFINE {
+			if id, ok := call.Fun.(*ast.Ident); ok && sigs[id.Name].result == "res" {
+				// v, err := F(...); if err != nil { return …, err }   (the error of the callee is passed on)
+				txt, sg, _ := t.callText(call)
+				v, ev := s.Lhs[0].(*ast.Ident), s.Lhs[1].(*ast.Ident)
+				if len(rest) == 0 || !isErrPropagation(rest[0], ev.Name) {
+					t.fail(s, "result of a (T, error) call must be followed by `if err != nil { return …, err }`")
+
+					return ""
+				}
+				rty := ty("T")
+				if !sg.generic {
+					rty = resultInt[id.Name]
+				}
+				t.env[v.Name] = rty
+				body := t.block(rest[1:], depth+1, k)
+
+				return fmt.Sprintf("%smatch %s with\n%s| Res.overflow => Res.overflow\n%s| Res.divzero => Res.divzero\n%s| Res.panic => Res.panic\n%s| Res.ok %s =>\n%s",
+					ind(depth), txt, ind(depth), ind(depth), ind(depth), ind(depth), leanName(v.Name), body)
+			}
+		}
 		if len(s.Rhs) == 1 && len(s.Lhs) == 2 {
 			// hi, lo := bits.Mul64(...)
 			e, k := t.expr(s.Rhs[0])
@@ -523,6 +660,39 @@ func (t *tr) block(stmts []ast.Stmt, depth int, k func(depth int) string) string
 	return ""
 }
 
+var compoundOps = map[token.Token]token.Token{
+	token.ADD_ASSIGN: token.ADD, token.SUB_ASSIGN: token.SUB, token.MUL_ASSIGN: token.MUL, token.QUO_ASSIGN: token.QUO, token.REM_ASSIGN: token.REM,
+	token.AND_ASSIGN: token.AND, token.OR_ASSIGN: token.OR, token.XOR_ASSIGN: token.XOR, token.SHL_ASSIGN: token.SHL, token.SHR_ASSIGN: token.SHR,
+	token.AND_NOT_ASSIGN: token.AND_NOT,
+}
+
+// integer result type of the non-generic (T, error) functions
+var resultInt = map[string]ty{}
+
+// isErrPropagation recognises `if err != nil { return <anything>, err }`.
+func isErrPropagation(s ast.Stmt, errName string) bool {
+	is, ok := s.(*ast.IfStmt)
+	if !ok || is.Init != nil || is.Else != nil || len(is.Body.List) != 1 {
+		return false
+	}
+	c, ok := is.Cond.(*ast.BinaryExpr)
+	if !ok || c.Op != token.NEQ {
+		return false
+	}
+	x, ok1 := c.X.(*ast.Ident)
+	y, ok2 := c.Y.(*ast.Ident)
+	if !ok1 || !ok2 || x.Name != errName || y.Name != "nil" {
+		return false
+	}
+	r, ok := is.Body.List[0].(*ast.ReturnStmt)
+	if !ok || len(r.Results) != 2 {
+		return false
+	}
+	e, ok := r.Results[1].(*ast.Ident)
+
+	return ok && e.Name == errName
+}
+
 func elseStmts(s ast.Stmt) []ast.Stmt {
 	if b, ok := s.(*ast.BlockStmt); ok {
 		return b.List
@@ -561,6 +731,24 @@ func mentions(e ast.Expr, name string) bool {
 }
 
 func (t *tr) ret(s *ast.ReturnStmt) string {
+	if t.result != "res" {
+		if len(s.Results) != 1 {
+			t.fail(s, "return must have one result")
+
+			return "?"
+		}
+		e, _ := t.expr(s.Results[0])
+
+		return e
+	}
+	if len(s.Results) == 1 {
+		// return F(...): the callee's answer is the answer
+		if call, ok := s.Results[0].(*ast.CallExpr); ok {
+			if txt, sg, ok := t.callText(call); ok && sg.result == "res" {
+				return txt
+			}
+		}
+	}
 	if len(s.Results) != 2 {
 		t.fail(s, "return must have two results")
 
@@ -611,7 +799,7 @@ func main() {
 		os.Exit(1)
 	}
 	var out strings.Builder
-	out.WriteString("import Hive.Base.GoInt\nimport Hive.Model.SafeMathErr\n/-! GENERATED by harness/tools/translate-safemath from core/safemath/safe_math.go — do not edit. -/\n")
+	out.WriteString("import Hive.Base.GoInt\nimport Hive.Model.SafeMathOps\nimport Hive.Model.SafeMathErr\n/-! GENERATED by harness/tools/translate-safemath from core/safemath/safe_math.go — do not edit. -/\n")
 	out.WriteString("namespace Hive.Gen.SafeMath\nopen Hive.GoInt\n\n")
 	var allErrs []string
 	var names []string
@@ -640,12 +828,71 @@ func main() {
 			}
 		}
 	}
+	// signatures first: functions may call each other in any source order
+	resultKind := func(fd *ast.FuncDecl) string {
+		rs := fd.Type.Results
+		if rs == nil {
+			return ""
+		}
+		var tys []string
+		for _, r := range rs.List {
+			n := len(r.Names)
+			if n == 0 {
+				n = 1
+			}
+			id, ok := r.Type.(*ast.Ident)
+			if !ok || len(r.Names) > 0 {
+				return "" // named results / composite types: unsupported
+			}
+			for i := 0; i < n; i++ {
+				tys = append(tys, id.Name)
+			}
+		}
+		switch {
+		case len(tys) == 2 && isIntTy(ty(tys[0])) && tys[1] == "error":
+			return "res:" + tys[0]
+		case len(tys) == 1 && (tys[0] == "bool" || isIntTy(ty(tys[0]))):
+			return tys[0]
+		}
+
+		return ""
+	}
 	for _, d := range f.Decls {
 		fd, ok := d.(*ast.FuncDecl)
 		if !ok || fd.Recv != nil || fd.Body == nil {
 			continue
 		}
-		t := &tr{fset: fset, env: map[string]ty{}, fn: fd.Name.Name}
+		sg := sig{generic: fd.Type.TypeParams != nil}
+		for _, p := range fd.Type.Params.List {
+			if id, ok := p.Type.(*ast.Ident); ok {
+				for range p.Names {
+					sg.params = append(sg.params, ty(id.Name))
+				}
+			}
+		}
+		rk := resultKind(fd)
+		if strings.HasPrefix(rk, "res:") {
+			sg.result = "res"
+			resultInt[fd.Name.Name] = ty(rk[4:])
+		} else {
+			sg.result = rk
+		}
+		sigs[fd.Name.Name] = sg
+	}
+	type emitted struct {
+		name, text string
+		calls      map[string]bool
+	}
+	var defs []emitted
+	for _, d := range f.Decls {
+		fd, ok := d.(*ast.FuncDecl)
+		if !ok || fd.Recv != nil || fd.Body == nil {
+			continue
+		}
+		t := &tr{fset: fset, env: map[string]ty{}, fn: fd.Name.Name, result: sigs[fd.Name.Name].result}
+		if t.result == "" {
+			t.fail(fd, "unsupported result types")
+		}
 		var params []string
 		if fd.Type.TypeParams != nil {
 			if len(fd.Type.TypeParams.List) != 1 || len(fd.Type.TypeParams.List[0].Names) != 1 || fd.Type.TypeParams.List[0].Names[0].Name != "T" {
@@ -659,14 +906,18 @@ func main() {
 		}
 		for _, p := range fd.Type.Params.List {
 			id, ok := p.Type.(*ast.Ident)
-			if !ok || !isIntTy(ty(id.Name)) {
+			if !ok || !(isIntTy(ty(id.Name)) || id.Name == "bool") {
 				t.fail(p, "unsupported parameter type")
 
 				continue
 			}
 			for _, n := range p.Names {
 				t.env[n.Name] = ty(id.Name)
-				params = append(params, fmt.Sprintf("(%s : Int)", leanName(n.Name)))
+				lt := "Int"
+				if id.Name == "bool" {
+					lt = "Bool"
+				}
+				params = append(params, fmt.Sprintf("(%s : %s)", leanName(n.Name), lt))
 			}
 		}
 		body := t.block(fd.Body.List, 1, func(d int) string {
@@ -676,9 +927,43 @@ func main() {
 		})
 		pos := fset.Position(fd.Pos())
 		end := fset.Position(fd.End())
-		fmt.Fprintf(&out, "/-- %s, safe_math.go:%d-%d -/\ndef %s %s : Res Int :=\n%s\n", fd.Name.Name, pos.Line, end.Line, fd.Name.Name, strings.Join(params, " "), body)
+		rt := "Res Int"
+		switch {
+		case t.result == "bool":
+			rt = "Bool"
+		case t.result != "res":
+			rt = "Int"
+		}
+		defs = append(defs, emitted{fd.Name.Name, fmt.Sprintf("/-- %s, safe_math.go:%d-%d -/\ndef %s %s : %s :=\n%s\n", fd.Name.Name, pos.Line, end.Line, fd.Name.Name,
+			strings.Join(params, " "), rt, body), t.calls})
 		allErrs = append(allErrs, t.errs...)
 		names = append(names, fd.Name.Name)
+	}
+	// Lean wants a definition before its use: source order, callees first
+	done := map[string]bool{}
+	for len(done) < len(defs) {
+		progress := false
+		for _, d := range defs {
+			if done[d.name] {
+				continue
+			}
+			ready := true
+			for c := range d.calls {
+				if !done[c] {
+					ready = false
+				}
+			}
+			if ready {
+				out.WriteString(d.text)
+				done[d.name] = true
+				progress = true
+			}
+		}
+		if !progress {
+			allErrs = append(allErrs, "recursive calls between the functions of safe_math.go are not supported")
+
+			break
+		}
 	}
 	fmt.Fprintf(&out, "def translated : List String := [%s]\n\n", `"`+strings.Join(names, `", "`)+`"`)
 	// error identities
